@@ -33,6 +33,7 @@ pub fn run(id: &str, rep: &mut Report) -> bool {
         "C04" => c04::run(rep),
         "C05" => {
             c05::run_part_a(rep);
+            c05::pipeline::run(rep);
             rep.alpha("every component execution of every run of all 21 templates (step observer after each child of every sequential block): all individuals in all populations of all scopes, best individual, elitist archive, personal/global best particles, molecule memories");
             runs::sweep(rep, crate::subject::templates::Flags { c05: true, ..Default::default() }, "templates.every-step.stale-objective-walk", &|_| true)
         }
@@ -72,7 +73,7 @@ pub fn replay(id: &str, case: &Value) -> Result<Vec<(String, String)>, String> {
         "C02" => c02::replay(case),
         "C03" => c03::replay(case),
         "C04" => c04::replay(case),
-        "C05" => if case.get("spec").is_some() { runs::replay(case) } else { c05::replay_a(case) },
+        "C05" => if case.get("spec").is_some() { runs::replay(case) } else if case.get("pipeline").is_some() { c05::pipeline::replay(case) } else { c05::replay_a(case) },
         "C06" => if case.get("spec").is_some() { runs::replay(case) } else { c06::replay_a(case) },
         "C07" => if case.get("spec").is_some() { runs::replay(case) } else { c07::replay_a(case) },
         "C08" => c08::replay(case),
